@@ -74,6 +74,19 @@ class PartialVal(AbstractValue):
         return interp.call(self.func, self.args + list(args), kw)
 
 
+class PyFunc(AbstractValue):
+    """A callable made by the analyser (operator.itemgetter(...) and the like)."""
+
+    def __init__(self, fn, what):
+        self.fn, self.what = fn, what
+
+    def __repr__(self):
+        return '<%s>' % self.what
+
+    def abs_call(self, interp, args, kwargs):
+        return self.fn(*args)
+
+
 class LazyIter(AbstractValue):
     """An iterator built from other (possibly abstract or unbounded) iterables: zip / chain / repeat.
     Elements are produced on demand, so an abstract sequence decides element by element how long it is."""
@@ -255,8 +268,9 @@ class GenList(list):
 class GenVal:
     """Result of calling a generator function: the list of yielded values."""
 
-    def __init__(self, items):
+    def __init__(self, items, retval=None):
         self.items = items
+        self.retval = retval        # what `x = yield from gen()` evaluates to
 
 
 # --------------------------------------------------------------------------
@@ -780,6 +794,11 @@ class Interp:
         raise InterpError('cannot call %r' % (f,))
 
     def call_python(self, f, args, kwargs):
+        if isinstance(f, type) and issubclass(f, tuple) and hasattr(f, '_fields'):
+            try:
+                return f(*args, **kwargs)       # a namedtuple holds whatever it is given
+            except TypeError as e:
+                raise Raised(ExcVal('TypeError', (str(e),)))
         if contains_abstract(list(args)) or contains_abstract(kwargs):
             return Unknown('py:%s' % getattr(f, '__name__', '?'))
         try:
@@ -901,6 +920,20 @@ class Interp:
             fr = self.call_stack[-1]
             recv = fr.receiver
             return SuperVal(recv, fr.func.cls)
+        if d == 'operator.itemgetter' and args and not kwargs:
+            keys = list(args)
+            return PyFunc(lambda x: self.getitem(x, keys[0]) if len(keys) == 1 else tuple(self.getitem(x, k) for k in keys), 'itemgetter')
+        if d == 'operator.attrgetter' and args and not kwargs and all(isinstance(a, str) and '.' not in a for a in args):
+            names = list(args)
+            return PyFunc(lambda x: self.getattr(x, names[0]) if len(names) == 1 else tuple(self.getattr(x, n) for n in names), 'attrgetter')
+        if d == 'collections.namedtuple' and len(args) >= 2 and isinstance(args[0], str):
+            import collections
+            fields = args[1].replace(',', ' ').split() if isinstance(args[1], str) else list(args[1])
+            if all(isinstance(f_, str) for f_ in fields):
+                try:
+                    return collections.namedtuple(args[0], fields, **{k: v for k, v in kwargs.items() if not is_abstract(v)})
+                except Exception as ex:
+                    raise Raised(ExcVal(type(ex).__name__, (str(ex),)))
         if d == 'builtins.iter' and len(args) == 2:
             # iter(callable, sentinel): the callable is called until it returns the sentinel
             fn, sentinel = args
@@ -1145,7 +1178,7 @@ class Interp:
             self.depth -= 1
             self.call_stack.pop()
         if is_gen:
-            return GenVal(frame.yields)
+            return GenVal(frame.yields, ret)
         return ret
 
     # ---- iteration --------------------------------------------------------
@@ -1790,7 +1823,7 @@ class Interp:
             frame.yields.append(StarOf(v))
         else:
             frame.yields.extend(self.iterate(v))
-        return None
+        return v.retval if isinstance(v, GenVal) else None
 
     def ex_NamedExpr(self, e, frame):
         v = self.eval(e.value, frame)
